@@ -44,6 +44,9 @@ ImplOf(e) ==
     [] e.op = "dump" -> ImplDump
     [] e.op = "close" -> ImplClose
     [] e.op = "drop" -> ImplDrop
+    [] e.op = "withop" -> ImplWithOperator(e.k)
+    [] e.op = "deepcopy" -> ImplDeepcopy
+    [] e.op = "createbad" -> ImplCreateBad(e.v)
     [] OTHER -> FALSE
 
 (* the dictionary semantics, driven by the events only *)
@@ -57,6 +60,7 @@ GhostOf(e) ==
     [] e.op = "dump" -> GhostDump
     [] e.op = "close" -> GhostClose
     [] e.op = "drop" -> GhostDrop
+    [] e.op = "deepcopy" -> GhostDeepcopy
     [] OTHER -> UNCHANGED g
 
 GLive == g.mode \in {"rw", "ro"}
@@ -79,6 +83,15 @@ Judge(e) ==
   /\ Chk((GLive /\ e.op = "get") =>
             (IF e.k \in DOMAIN g.model THEN reply' = RVal(g.model[e.k]) ELSE reply'.kind = "exc"),
          "C37:get")
+  /\ Chk((GLive /\ e.op = "withop") =>
+            (IF e.k \in DOMAIN g.model THEN reply' = RVal(g.model[e.k]) ELSE reply'.kind = "exc"),
+         "C37:operator-context")
+  /\ Chk((GLive /\ e.op = "deepcopy") =>
+            (reply' = Ok /\ arc2'.exists /\ Loadable(arc2')
+             /\ [k \in arc2'.hdr |-> IF NFiles(arc2', k) = 1 THEN TheFile(arc2', k) ELSE "unreadable"] = g.model),
+         "C37:deepcopy")
+  /\ Chk(e.op # "deepcopy" => arc2' = arc2, "C37:copy-changed")
+  /\ Chk((e.op = "createbad") => (reply'.kind = "exc" /\ arc' = arc), "C37:bad-create-not-refused")
   /\ Chk((GLive /\ e.op = "contains") => reply' = RBool(e.k \in DOMAIN g.model), "C37:contains")
   /\ Chk((GLive /\ e.op = "iter") => reply' = RKeys(DOMAIN g.model), "C37:iter")
   /\ Chk((GLive /\ e.op = "items") => reply' = RPairs({<<k, g.model[k]>> : k \in DOMAIN g.model}),
@@ -95,6 +108,7 @@ TraceNext ==
      /\ obj' = ToObj(e.obj)
      /\ dir' = ToFs(e.dir)
      /\ arc' = ToFs(e.arc)
+     /\ arc2' = ToFs(e.arc2)
      /\ mmeta' = e.mmeta
      /\ reply' = ToReply(e.reply)
      /\ last' = [op |-> e.op, k |-> e.k, v |-> e.v, f |-> e.f, m |-> e.m]
